@@ -32,6 +32,12 @@ type (
 		Fn   SExpr
 		Args []SExpr
 	}
+	// SSum is a finite sum over k = 0..N-1 of an integer-valued body.
+	SSum struct {
+		Var  string
+		N    SExpr
+		Body SExpr
+	}
 	SQuant struct {
 		Forall bool
 		Vars   []SParam
@@ -144,6 +150,22 @@ func ParseSpecExpr(src string) (e SExpr, err error) {
 }
 
 func (p *sparser) expr() SExpr {
+	if p.isID("sumof") {
+		// sumof k int :: n :: body   =  body(0) + ... + body(n-1)
+		p.next()
+		name := p.next()
+		if name.k != "id" {
+			panic("spec parse: summation variable expected in " + p.src)
+		}
+		if !p.isOp("::") {
+			p.typeStr()
+		}
+		p.expectOp("::")
+		n := p.impl()
+		p.expectOp("::")
+		body := p.expr()
+		return &SSum{Var: name.s, N: n, Body: body}
+	}
 	if p.isID("forall") || p.isID("exists") {
 		fa := p.next().s == "forall"
 		var vars []SParam
